@@ -1019,6 +1019,45 @@ mod search_admission {
         });
     }
 
+    /// C16 (selection with trust selection disabled): the choice is exactly the closest candidates in distance
+    /// order -- ids that differ from the key only in low-order bytes included.
+    #[test]
+    fn verif_search_c16_route_closest() {
+        let seed: u64 = std::env::var("VERIF_SEED").ok().and_then(|s| s.parse().ok()).unwrap_or(0);
+        let mut r = Rng(0x7f4a_7c15_9e37_79b9 ^ seed.wrapping_mul(0x1000_0000_01b3) | 1);
+        let rt = tokio::runtime::Builder::new_current_thread().enable_all().build().expect("runtime");
+        rt.block_on(async {
+            for round in 0..16usize {
+                let mut e = DhtCoreEngine::new_for_tests(NodeId::from_bytes([0u8; 32])).expect("engine");
+                let mut ids: Vec<[u8; 32]> = Vec::new();
+                let low = round % 2 == 0;
+                for i in 0..16u8 {
+                    let mut id = [0u8; 32];
+                    if low { id[31] = 1 + i; id[30] = (r.below(3)) as u8; } else { id = r.bytes(); id[0] |= 0x10; }
+                    if ids.contains(&id) { continue; }
+                    let mut n = mk_node(id);
+                    n.address = format!("10.{}.0.1:9000", i + 1);
+                    if e.add_node(n).await.is_ok() { ids.push(id); }
+                }
+                for q in 0..8usize {
+                    let mut key = [0u8; 32];
+                    if low { key[31] = r.below(20) as u8; key[30] = r.below(3) as u8; } else { key = r.bytes(); }
+                    let _ = q;
+                    let mut sorted = ids.clone();
+                    sorted.sort_by_key(|id| { let mut d = [0u8; 32]; for k in 0..32 { d[k] = id[k] ^ key[k]; } d });
+                    for n in [1usize, 2, 3, 5, 8] {
+                        let got: Vec<[u8; 32]> = match e.find_nodes(&DhtKey::from_bytes(key), n).await { Ok(v) => v.iter().map(|x| *x.id.as_bytes()).collect(), Err(_) => continue };
+                        let want: Vec<[u8; 32]> = sorted.iter().take(n).cloned().collect();
+                        if got != want {
+                            panic!("VERIF-SEARCH-HIT C16/select/with_trust_selection_disabled_the_choice_is_exactly_the_closest_candidates_in_distance_order round={} key={} count={} chosen=[{}] closest=[{}]",
+                                   round, hex(&key), n, got.iter().map(|x| hex(x)[58..].to_string()).collect::<Vec<_>>().join(","), want.iter().map(|x| hex(x)[58..].to_string()).collect::<Vec<_>>().join(","));
+                        }
+                    }
+                }
+            }
+        });
+    }
+
     /// C16 (routing): a failed / evicted peer leaves the routing table, nobody else does.
     #[test]
     fn verif_search_c16_route() {
